@@ -96,7 +96,7 @@ class Topology:
     # finite values -------------------------------------------------------------------------
     def value(self, i, depth, rng, branching=2):
         """A value of class i nested to `depth` levels (0 = all closing edges empty). Only valid when every
-        edge is a closing kind."""
+        cycle holds a closing edge (the direct-only subgraph is acyclic)."""
         cls = self.cls(i)
         kw = {"v": rng.randrange(-5, 100)} if (self.payload or not any(a == i for a, _, _ in self.edges)) else {}
         mine = [e for e in self.edges if e[0] == i]
@@ -108,7 +108,11 @@ class Topology:
                 sub = None
             else:
                 sub = lambda: self.value(b, depth - 1, rng, branching if depth <= 3 else 1)  # noqa: E731
-            if kind in ("optional", "pipe"):
+            if kind == "direct":
+                # a direct edge cannot be left empty: below the requested depth it carries a minimal value of its target
+                # (finite because the direct-only subgraph is acyclic, see closing_kinds_with_direct)
+                kw[name] = sub() if sub else self.value(b, 0, rng, 1)
+            elif kind in ("optional", "pipe"):
                 kw[name] = sub() if sub else None
             elif kind == "list":
                 kw[name] = [sub() for _ in range(rng.randrange(1, branching + 1))] if sub else []
@@ -121,6 +125,33 @@ class Topology:
         if self.flavour == "typeddict":
             return dict(kw)
         return cls(**kw)
+
+
+def closing_kinds_with_direct(rng, es, direct_prob=0.3):
+    """Edge kinds for the edge set `es` such that finite values exist: some edges become direct (`x: C`), but never a whole
+    cycle of them."""
+    kinds = {}
+    direct = set()
+
+    def reaches(src, dst):
+        seen, todo = set(), [src]
+        while todo:
+            x = todo.pop()
+            if x == dst:
+                return True
+            if x in seen:
+                continue
+            seen.add(x)
+            todo.extend(b for (a, b) in direct if a == x)
+        return False
+
+    for (a, b) in es:
+        if a != b and rng.random() < direct_prob and not reaches(b, a):
+            direct.add((a, b))
+            kinds[(a, b)] = "direct"
+        else:
+            kinds[(a, b)] = rng.choice(CLOSING_KINDS)
+    return [(a, b, kinds[(a, b)]) for a, b in es]
 
 
 def all_edge_sets(n, self_loops=True):
